@@ -46,8 +46,70 @@ def gen_re(rng, names, depth=0):
     return ['seq', ['any'], gen_re(rng, names, depth + 1)]
 
 
+def parse_regex(p):
+    """a raw pattern text (e.g. a resource name used as a selector) -> AST; supports literals . | ( ) [ ] * + ?"""
+    pos = [0]
+
+    def alt():
+        left = seq()
+        while pos[0] < len(p) and p[pos[0]] == '|':
+            pos[0] += 1
+            left = ['alt', left, seq()]
+        return left
+
+    def seq():
+        items = []
+        while pos[0] < len(p) and p[pos[0]] not in '|)':
+            items.append(post())
+        if not items:
+            return ['lit', '']
+        out = items[-1]
+        for it in reversed(items[:-1]):
+            out = ['seq', it, out]
+        return out
+
+    def post():
+        a = atom()
+        while pos[0] < len(p) and p[pos[0]] in '*+?':
+            a = [{'*': 'star', '+': 'plus', '?': 'opt'}[p[pos[0]]], a]
+            pos[0] += 1
+        return a
+
+    def atom():
+        c = p[pos[0]]
+        pos[0] += 1
+        if c == '.':
+            return ['any']
+        if c == '(':
+            a = alt()
+            pos[0] += 1
+            return a
+        if c == '[':
+            neg = p[pos[0]] == '^'
+            if neg:
+                pos[0] += 1
+            rs = []
+            while p[pos[0]] != ']':
+                a = p[pos[0]]
+                if p[pos[0] + 1] == '-' and p[pos[0] + 2] != ']':
+                    rs.append([ord(a), ord(p[pos[0] + 2])])
+                    pos[0] += 3
+                else:
+                    rs.append([ord(a), ord(a)])
+                    pos[0] += 1
+            pos[0] += 1
+            return ['class', neg, rs]
+        if c == '\\':
+            c = p[pos[0]]
+            pos[0] += 1
+        return ['lit', c]
+    return alt()
+
+
 def show(r, top=True):
     t = r[0]
+    if t == 'raw':
+        return r[1]
     if t == 'lit':
         return re.escape(r[1]) if len(r[1]) else '(?:)'
     if t == 'any':
@@ -67,6 +129,8 @@ def show(r, top=True):
 
 def coq_re(r):
     t = r[0]
+    if t == 'raw':
+        return coq_re(parse_regex(r[1]))
     if t == 'lit':
         if not r[1]:
             return 'REps'
@@ -87,6 +151,8 @@ def gen_sel(rng, names):
     k = rng.randint(0, 9)
     if k == 0:
         return ['all']
+    if k <= 1:
+        return ['re', ['raw', rng.pick(names + ['zz', 'a.*', 'a.b', 'res_1|a'])]]      # a name (or raw text) used as the pattern
     if k <= 4:
         return ['re', gen_re(rng, names + ['zz'])]
     if k <= 6:
